@@ -136,7 +136,7 @@ def _merge(ctx):
     try:
         with open(os.path.join(repo_dir(), "cij/data/default/settings.yaml")) as fp:
             packaged = yaml.safe_load(fp)
-        n = ctx.pick(4000, 300000)
+        n = ctx.pick(4000, 1500000)
         for i in range(n):
             if not ctx.mine(i):
                 continue
@@ -254,7 +254,7 @@ def _files(ctx):
     from cij.io.config import read_config
     tmp = tempfile.mkdtemp(prefix="c16-")
     try:
-        n = ctx.pick(60, 2000)
+        n = ctx.pick(60, 10000)
         for i in range(n):
             if not ctx.mine(i):
                 continue
@@ -431,7 +431,7 @@ def _validate(ctx):
     if len(shipped) < 4:
         ctx.inconc("shipped settings files not found")
 
-    bases = ctx.pick(6, 120)
+    bases = ctx.pick(6, 600)
     k = 0
     for ib in range(bases):
         rng = ctx.rng("vbase", ib)
